@@ -272,7 +272,7 @@ def opt_case(spec, pid):
                                "detail": {"opts": o, "case": label, "fired": list(dict.fromkeys(fired))[:20]}})
         sd = optcommon.sig_diff(m, m2)
         if sd:
-            kind = "output_type_lost" if (sd.endswith("-> (None, None)") or (sd.startswith("declared shape of") and sd.endswith("-> None"))) else "signature"
+            kind = "output_type_lost" if (sd.endswith("-> (None, None)") or (sd.startswith("declared shape of") and " lost: " in sd)) else "signature"
             culprit = optcommon.attribute(m, o, lambda x: optcommon.sig_diff(m, x) is None, fired, known,
                                           prefer=lambda name, kind=kind: listed(f"mech={name};kind={kind}"))
             res["c04"].append({"key": f"mech={culprit or '?'};kind={kind}", "what": f"{o['api']}({_optstr(o)}): {sd}",
